@@ -35,8 +35,8 @@ Path, Paste, Tags (`C10I.isMethodBlock'`).
 * `add_method_iff`: the converse for acceptance.  `f ++ [t]` is accepted exactly when (1) the Path stage accepts `t`
   in the state the stage has after `f`, (2) `addBranch` accepts `t` on the catalog of `f`, (3) the request and the
   responses of the new interaction have bodies.  (1) cannot be dropped: `path_stage_matters` (the stage threads
-  the source identity of the parent of the last Path directive through the forest); without Path directives in `t`
-  it holds (`add_method_iff_noPath`).
+  the identities of the contexts that already have a Path directive through the forest, F76); without Path
+  directives in `t` it holds (`add_method_iff_noPath`).
 
 Nothing is weakened relative to the statement asked for, but one point is stated more precisely than "its list of
 interaction ids is the old list or the old list followed by the new id": a Tags directive may name a tag twice, and
@@ -259,14 +259,15 @@ theorem remove_method_local (banned : List Kind) (f : List BTree) (t : BTree) (c
   exact ⟨c, new, h, a1, a2, a6, a7, a8, a9, a12⟩
 
 /-- ACCEPTANCE of the longer forest, given an accepted `f` (not empty: JSIGHT comes first) whose Path stage ends in
-the state `x`: `f ++ [t]` is accepted with catalog `c'` exactly when
+the state `x` (restated for F76: `x : List Nat`, the stage starts from `[]`; it was `Option Nat`, `none`):
+`f ++ [t]` is accepted with catalog `c'` exactly when
 1. the Path stage accepts `t` in the state `x`,
 2. the fold accepts the block on the catalog of `f`, giving `c'` (the ban list, the path and its parameters, the
    similar-paths table, a fresh (verb, path), declared tag names, and the children on the new interaction),
 3. the request and every response of the new (last) interaction have a body. -/
-theorem add_method_iff (banned : List Kind) (f : List BTree) (t : BTree) (c c' : Cat) (x : Option Nat)
+theorem add_method_iff (banned : List Kind) (f : List BTree) (t : BTree) (c c' : Cat) (x : List Nat)
     (ht : C10I.isMethodBlock' t = true) (h : compile banned f = .ok c) (hf : f ≠ [])
-    (hp : pathsForest [] f none = .ok x) :
+    (hp : pathsForest [] f [] = .ok x) :
     compile banned (f ++ [t]) = .ok c' ↔
       (∃ y, pathsTree [] t x = .ok y) ∧ addBranch banned [] t c = .ok c' ∧
       (∀ new, c'.inters.getLast? = some new →
@@ -304,8 +305,8 @@ theorem add_method_iff (banned : List Kind) (f : List BTree) (t : BTree) (c c' :
       rw [a1, List.getLast?_append, List.getLast?_singleton]; rfl
     exact ⟨c₀, x, y, c, hf, g0, g1, hp, hy, g3, g4, hb, (BuildLocal.chk_snoc a7 a1).2 ⟨g5, hbody new hl⟩⟩
 
-/-- a block without Path directives passes the Path stage in every state -/
-theorem paths_of_noPath {t : BTree} (hn : C10I.noPathTree t = true) (x : Option Nat) :
+/-- a block without Path directives passes the Path stage in every state (restated for F76: `x : List Nat`) -/
+theorem paths_of_noPath {t : BTree} (hn : C10I.noPathTree t = true) (x : List Nat) :
     pathsTree [] t x = .ok x := by
   rw [C10I.noPathTree_eq] at hn
   exact BuildPermI.pathsTree_noPath t [] x hn
@@ -365,14 +366,15 @@ accepted forest.  If `f` declares the same tag names as `f₀` (only the names i
 the hypothesis is on all), the similar-paths table of `f` (`Cat.similar`, the map `core.similarPaths`) admits the
 path parameters of `t`, no interaction of `f` has the (verb, path) of `t`, and the Path stage admits `t` after `f`
 (automatic when `t` holds no Path directive: `paths_of_noPath`), then `f ++ [t]` is accepted — `add_method_local`
-then says what its catalog is — and the new interaction is the one `t` yields after `f₀`. -/
+then says what its catalog is — and the new interaction is the one `t` yields after `f₀`.
+Restated for F76: the Path stage in `hpath` starts from `[]` (it was `none`). -/
 theorem add_method_transfer (banned : List Kind) (f₀ f : List BTree) (t : BTree) (c₀' c : Cat)
     (ht : C10I.isMethodBlock' t = true) (h₀' : compile banned (f₀ ++ [t]) = .ok c₀')
     (h : compile banned f = .ok c) (hf : f ≠ [])
     (htags : ∀ n, n ∈ tagDecls f₀ ↔ n ∈ tagDecls f)
     (hsim : ∀ pp, checkedPathParameters (t.dir.param "Path") = .ok pp → (checkSimilar c.similar pp).isSome = true)
     (hfresh : ∀ x ∈ c.inters, x.iid ≠ methodId t)
-    (hpath : ∀ x, pathsForest [] f none = .ok x → ∃ y, pathsTree [] t x = .ok y) :
+    (hpath : ∀ x, pathsForest [] f [] = .ok x → ∃ y, pathsTree [] t x = .ok y) :
     ∃ c', compile banned (f ++ [t]) = .ok c' ∧ c'.inters.getLast? = c₀'.inters.getLast? := by
   cases t with
   | node d kids =>
@@ -434,7 +436,7 @@ theorem move_block_last (banned : List Kind) (t : BTree) (ht : C10I.isInterBlock
     have hnt' := hnt
     rw [C10I.noPathTree_eq] at hnt' hnb
     have s1 := BuildPermI.swap_blocks_rrel banned pre post t b ht' hbb hpre
-      (by rw [BuildPermI.pathsForest_swap_noPath pre post t b hnt' hnb none])
+      (by rw [BuildPermI.pathsForest_swap_noPath pre post t b hnt' hnb []])
     have s2 := move_block_last banned t ht hnt post (pre ++ [b]) (by simp)
       (fun x hx => hb x (List.mem_cons_of_mem _ hx)) (fun x hx => hn x (List.mem_cons_of_mem _ hx))
     have e1 : pre ++ [b] ++ t :: post = pre ++ b :: t :: post := by simp
@@ -610,11 +612,12 @@ private def M5p : BTree := .node { kind := .Get, id := 77, src := 5, named := [(
 
 /-- condition (1) of `add_method_iff` cannot be dropped for arbitrary trees: `[J, M5]` is accepted, the fold accepts the
 block `M5'` on its catalog and the new interaction has its bodies, but `[J, M5] ++ [M5']` is rejected — by the Path
-stage, which remembers the identity of the parent of the last Path directive (`pathsTree` in the state `some 70`) -/
+stage, which remembers the identities of the contexts that have a Path directive (`pathsTree` in the state `[70]`).
+Restated for F76: the state is a list (`[]`, `[70]`), it was `none`, `some 70` -/
 theorem path_stage_matters :
     (compile [] [J, M5]).isOk = true ∧ C10I.isMethodBlock' M5' = true ∧
     (addBranch [] [] M5' (cat [J, M5])).isOk = true ∧
-    pathsForest [] [J, M5] none = .ok (some 70) ∧ pathsTree [] M5' (some 70) = .error ⟨75, .notUnique⟩ ∧
+    pathsForest [] [J, M5] [] = .ok [70] ∧ pathsTree [] M5' [70] = .error ⟨75, .notUnique⟩ ∧
     compile [] ([J, M5] ++ [M5']) = .error ⟨75, .notUnique⟩ := by decide +kernel
 
 /-- F44 in the model: the second copy of a macro's method (same coordinates, its own identity) is accepted -/
